@@ -155,11 +155,26 @@ func (c *Ctx) subrRules(_ *types.Info, _ map[string]*ast.CaseClause) {
 				bad = append(bad, fmt.Sprintf("a call with %d byte(s) of the caller left and %d frame(s) on the call stack leaves the call stack %v (expected: one more frame holding the rest of the caller) %s", len(rest), depth, o.frames, o.why))
 			}
 		}
-		if o := run(code, 0, 100); !o.err || o.panics {
-			bad = append(bad, fmt.Sprintf("a call with %d byte(s) of the caller left at depth 100 is not refused", len(rest)))
+		// the depth limit, by induction over the depth (so that a call stack of bounded capacity is
+		// only examined in states it can be in): from depth 0 every accepted call leaves one more
+		// frame, and some depth up to 100 refuses the call
+		refused := false
+		for depth := 0; depth <= 100 && !refused; depth++ {
+			o := run(code, 0, depth)
+			switch {
+			case o.err && !o.panics:
+				refused = true
+			case o.back && !o.panics && len(o.frames) == depth+1:
+			default:
+				bad = append(bad, fmt.Sprintf("a call with %d byte(s) of the caller left at depth %d is neither refused nor does it leave %d frames (call stack %v) %s", len(rest), depth, depth+1, o.frames, o.why))
+				refused = true
+			}
+		}
+		if !refused {
+			bad = append(bad, fmt.Sprintf("a call with %d byte(s) of the caller left is not refused at any depth up to 100", len(rest)))
 		}
 	}
-	c.check(len(bad) == 0, "T1-SUBR", fname, "every subroutine call pushes a return frame and is depth-limited", pos, "calls in the middle and at the end of a charstring, at depths 0, 1 and 100", "a subroutine call can be made without pushing a return frame or without the depth limit: a subroutine that ends in a call of itself then loops forever: "+joinMax(bad, 2))
+	c.check(len(bad) == 0, "T1-SUBR", fname, "every subroutine call pushes a return frame and is depth-limited", pos, "calls in the middle and at the end of a charstring, at depths 0, 1, … until the call is refused (at most 100)", "a subroutine call can be made without pushing a return frame or without the depth limit: a subroutine that ends in a call of itself then loops forever: "+joinMax(bad, 2))
 }
 
 func (c *Ctx) charstringDecryption() {
@@ -589,18 +604,75 @@ func (c *Ctx) t1CommandClauses() (map[string]*ast.CaseClause, *types.Info) {
 	return clauses, info
 }
 
-// constSources: the numeric constants that can flow into v through phis, conversions and — for
-// parameters of module functions — the arguments of the static call sites.
+// constSources: the numeric constants that can flow into v through phis, conversions, the results
+// of module functions (the values their return statements deliver; a parameter met on the way
+// back is the argument of the call the walk came through, so that one helper used for several
+// entries — getOr(d, key, default) — keeps its call sites apart) and — for parameters of the
+// function the walk started in — the arguments of the static call sites.  The walk knows the
+// block in which the value is used: a result of a (value, ok) function that is used only under
+// `ok` does not receive what the function returns together with ok = false.
 func (c *Ctx) constSources(v ssa.Value) []float64 {
-	seen := map[ssa.Value]bool{}
+	seen := map[string]bool{}
 	set := map[float64]bool{}
-	var walk func(v ssa.Value, depth int)
-	walk = func(v ssa.Value, depth int) {
-		v = origin(v)
-		if seen[v] || depth > 12 {
+	var walk func(v ssa.Value, at *ssa.BasicBlock, ctx []ssa.CallInstruction, depth int)
+	// underOK: block at is only reached when the last (boolean) result of call is true
+	underOK := func(call *ssa.Call, at *ssa.BasicBlock) bool {
+		tup, ok := call.Type().(*types.Tuple)
+		if !ok || tup.Len() < 2 || at == nil || call.Referrers() == nil {
+			return false
+		}
+		last := tup.Len() - 1
+		if bt, ok := tup.At(last).Type().Underlying().(*types.Basic); !ok || bt.Info()&types.IsBoolean == 0 {
+			return false
+		}
+		for _, r := range *call.Referrers() {
+			ex, ok := r.(*ssa.Extract)
+			if !ok || ex.Index != last || ex.Referrers() == nil {
+				continue
+			}
+			for _, u := range *ex.Referrers() {
+				if ifi, ok := u.(*ssa.If); ok {
+					if tb := ifi.Block().Succs[0]; len(tb.Preds) == 1 && tb.Parent() == at.Parent() && tb.Dominates(at) {
+						return true
+					}
+				}
+			}
+		}
+		return false
+	}
+	results := func(call ssa.CallInstruction, idx int, okOnly bool, ctx []ssa.CallInstruction, depth int) {
+		callee := call.Common().StaticCallee()
+		if callee == nil || len(callee.Blocks) == 0 || !c.inModule(callee) || len(ctx) >= 4 {
 			return
 		}
-		seen[v] = true
+		for _, in := range ctx {
+			if in == call {
+				return
+			}
+		}
+		sub := append(append([]ssa.CallInstruction{}, ctx...), call)
+		for _, r := range returns(callee) {
+			if idx >= len(r.Results) {
+				continue
+			}
+			if okOnly {
+				if k, isC := r.Results[len(r.Results)-1].(*ssa.Const); isC && k.Value != nil && k.Value.Kind() == constant.Bool && !constant.BoolVal(k.Value) {
+					continue
+				}
+			}
+			walk(r.Results[idx], r.Block(), sub, depth+1)
+		}
+	}
+	walk = func(v ssa.Value, at *ssa.BasicBlock, ctx []ssa.CallInstruction, depth int) {
+		v = origin(v)
+		key := fmt.Sprintf("%p@%p", v, at)
+		for _, in := range ctx {
+			key += fmt.Sprintf("|%p", in)
+		}
+		if seen[key] || depth > 12 {
+			return
+		}
+		seen[key] = true
 		switch x := v.(type) {
 		case *ssa.Const:
 			if x.Value != nil && (x.Value.Kind() == constant.Int || x.Value.Kind() == constant.Float) {
@@ -608,15 +680,21 @@ func (c *Ctx) constSources(v ssa.Value) []float64 {
 				set[f] = true
 			}
 		case *ssa.Phi:
-			for _, e := range x.Edges {
-				walk(e, depth+1)
+			for i, e := range x.Edges {
+				walk(e, x.Block().Preds[i], ctx, depth+1)
 			}
 		case *ssa.Convert:
-			walk(x.X, depth+1)
+			walk(x.X, at, ctx, depth+1)
 		case *ssa.ChangeType:
-			walk(x.X, depth+1)
+			walk(x.X, at, ctx, depth+1)
 		case *ssa.MakeInterface:
-			walk(x.X, depth+1)
+			walk(x.X, at, ctx, depth+1)
+		case *ssa.Call:
+			results(x, 0, false, ctx, depth)
+		case *ssa.Extract:
+			if call, ok := x.Tuple.(*ssa.Call); ok {
+				results(call, x.Index, underOK(call, at), ctx, depth)
+			}
 		case *ssa.Parameter:
 			fn := x.Parent()
 			idx := -1
@@ -625,10 +703,17 @@ func (c *Ctx) constSources(v ssa.Value) []float64 {
 					idx = i
 				}
 			}
+			if n := len(ctx); n > 0 && ctx[n-1].Common().StaticCallee() == fn {
+				// back to the call the walk came through
+				if args := ctx[n-1].Common().Args; idx >= 0 && idx < len(args) {
+					walk(args[idx], ctx[n-1].Block(), ctx[:n-1], depth+1)
+				}
+				return
+			}
 			for _, g := range c.modFuncs {
 				for _, call := range staticCalls(g, fn) {
 					if idx >= 0 && idx < len(call.Common().Args) {
-						walk(call.Common().Args[idx], depth+1)
+						walk(call.Common().Args[idx], call.Block(), nil, depth+1)
 					}
 				}
 			}
@@ -637,13 +722,27 @@ func (c *Ctx) constSources(v ssa.Value) []float64 {
 			if al, ok := x.X.(*ssa.Alloc); ok && x.Op == token.MUL {
 				for _, r := range *al.Referrers() {
 					if st, ok := r.(*ssa.Store); ok && st.Addr == ssa.Value(al) {
-						walk(st.Val, depth+1)
+						walk(st.Val, st.Block(), ctx, depth+1)
 					}
 				}
 			}
 		}
 	}
-	walk(v, 0)
+	// where the value is used (a value with one use: the block of that use)
+	var at *ssa.BasicBlock
+	if refs := v.Referrers(); refs != nil {
+		n := 0
+		for _, r := range *refs {
+			if _, dbg := r.(*ssa.DebugRef); !dbg {
+				at = r.Block()
+				n++
+			}
+		}
+		if n != 1 {
+			at = nil
+		}
+	}
+	walk(v, at, nil, 0)
 	var out []float64
 	for f := range set {
 		out = append(out, f)
